@@ -108,7 +108,7 @@ Proof.
   destruct (history_returns gen wck ord RC OC P sf HS HWF HWO always fuel h init_world HB J_init (Q_init gen ord)) as [_ [Jw Qw]]. fold w in Jw, Qw.
   pose proof (proj1 (proj2 (Qw g)) r dp' R2 I2) as G.
   destruct (proj2 (proj2 (Qw rd)) r dp R1 I1) as [E|[g' [E I']]]; [congruence|]. rewrite G in E. inversion E; subst g'.
-  split; [exact I'|]. apply cte_edge; [apply Jw|exact I'].
+  split; [exact (before_in _ _ _ I')|]. apply cte_edge; [apply Jw|exact (before_in _ _ _ I')].
 Qed.
 
 Hypothesis HC : forall c env r v v', rc_check (RC c) env r v' (sf c r v) = Consistent -> rc_view (RC c) v' = rc_view (RC c) v.
